@@ -398,14 +398,24 @@ class GcodeHandlers(object):
             homeY = True
             homeZ = True
 
+        # Homing is executed by the printer even while excluding, so the position the tool
+        # physically had before entering the excluded region has to follow it
+        lastPosition = self.state.lastPosition if (self.state.excluding) else None
+
         if (homeX):
             position.X_AXIS.setHome()
+            if (lastPosition is not None):
+                lastPosition.X_AXIS.setHome()
 
         if (homeY):
             position.Y_AXIS.setHome()
+            if (lastPosition is not None):
+                lastPosition.Y_AXIS.setHome()
 
         if (homeZ):
             position.Z_AXIS.setHome()
+            if (lastPosition is not None):
+                lastPosition.Z_AXIS.setHome()
 
     def _handle_G90(self, cmd, gcode, subcode=None):  # pylint: disable=unused-argument,invalid-name
         """G90 - Set absolute positioning mode."""
